@@ -1372,7 +1372,7 @@ def expand_module(tree: ast.Module, modname: str) -> Tuple[int, List[str]]:
     # a module the rules never saw has no anchors: all of its helpers may be expanded
     known = kf.get(modname, set())
     lm = lower_match(tree)
-    ud = undo_decorators(tree, known)
+    ud = undo_decorators(tree, known) + run_init_subclass(tree, known)
     nc = propagate_new_constants(tree, modname) + len(lm)
     te = TableEvaluator(tree)
     nt = te.run() + nc
@@ -1393,6 +1393,216 @@ def expand_module(tree: ast.Module, modname: str) -> Tuple[int, List[str]]:
     fl = single_use_flags(tree, modname)
     sp = canonical_spellings(tree, modname)
     return n + nt + len(cs) + len(ea) + len(fl) + len(sp), te.sites + ex.sites + cs + ea + fl + sp
+
+
+class _NoConst(Exception):
+    pass
+
+
+def _const_eval(e: ast.expr, env: Dict[str, object]):
+    """Value of an expression over int / bool / None / str literals and bound names; raises _NoConst for anything else."""
+    if isinstance(e, ast.Constant) and (e.value is None or isinstance(e.value, (int, bool, str))):
+        return e.value
+    if isinstance(e, ast.Name) and e.id in env:
+        return env[e.id]
+    if isinstance(e, ast.UnaryOp):
+        v = _const_eval(e.operand, env)
+        if isinstance(e.op, ast.Not):
+            return not v
+        if isinstance(v, int):
+            if isinstance(e.op, ast.USub):
+                return -v
+            if isinstance(e.op, ast.UAdd):
+                return +v
+            if isinstance(e.op, ast.Invert):
+                return ~v
+        raise _NoConst
+    if isinstance(e, ast.BinOp):
+        a, b = _const_eval(e.left, env), _const_eval(e.right, env)
+        if not (isinstance(a, int) and isinstance(b, int)):
+            raise _NoConst
+        try:
+            if isinstance(e.op, ast.Add):
+                return a + b
+            if isinstance(e.op, ast.Sub):
+                return a - b
+            if isinstance(e.op, ast.Mult):
+                return a * b
+            if isinstance(e.op, ast.FloorDiv):
+                return a // b
+            if isinstance(e.op, ast.Mod):
+                return a % b
+            if isinstance(e.op, ast.Pow) and 0 <= b <= 4096 and abs(a) <= 4096:
+                return a ** b
+            if isinstance(e.op, ast.LShift) and 0 <= b <= 4096:
+                return a << b
+            if isinstance(e.op, ast.RShift) and b >= 0:
+                return a >> b
+            if isinstance(e.op, ast.BitAnd):
+                return a & b
+            if isinstance(e.op, ast.BitOr):
+                return a | b
+        except (ZeroDivisionError, OverflowError):
+            pass
+        raise _NoConst
+    if isinstance(e, ast.BoolOp):
+        vals = [_const_eval(v, env) for v in e.values]
+        r = vals[0]
+        for v in vals[1:]:
+            r = (r and v) if isinstance(e.op, ast.And) else (r or v)
+        return r
+    if isinstance(e, ast.Compare) and len(e.ops) == 1:
+        a, b = _const_eval(e.left, env), _const_eval(e.comparators[0], env)
+        op = e.ops[0]
+        try:
+            if isinstance(op, ast.Is):
+                return a is b
+            if isinstance(op, ast.IsNot):
+                return a is not b
+            if isinstance(op, ast.Eq):
+                return a == b
+            if isinstance(op, ast.NotEq):
+                return a != b
+            if isinstance(op, ast.Lt):
+                return a < b
+            if isinstance(op, ast.LtE):
+                return a <= b
+            if isinstance(op, ast.Gt):
+                return a > b
+            if isinstance(op, ast.GtE):
+                return a >= b
+        except TypeError:
+            pass
+        raise _NoConst
+    if isinstance(e, ast.IfExp):
+        return _const_eval(e.body if _const_eval(e.test, env) else e.orelse, env)
+    raise _NoConst
+
+
+def _const_node(v) -> ast.expr:
+    if isinstance(v, int) and not isinstance(v, bool) and v < 0:
+        return ast.UnaryOp(op=ast.USub(), operand=ast.Constant(value=-v))
+    return ast.Constant(value=v)
+
+
+def run_init_subclass(tree: ast.Module, known: Set[str]) -> List[str]:
+    """A base class that gained an `__init_subclass__(cls, size=None, unsigned=False, **kwargs)` hook deriving class
+    attributes from class keyword arguments (`class Int16(Base, size=2, unsigned=False)`): the hook is run here on
+    literals for every subclass in the module and its `cls.<attr> = <value>` stores are written into the subclass body
+    as plain class attributes - the form the rules read.  The hook may only consist of the super() call, tests over its
+    parameters, local constants, `cls.<attr> = <constant expression>` and `return`; anything else leaves the module as
+    written."""
+    classes = {c.name: c for c in tree.body if isinstance(c, ast.ClassDef)}
+
+    def base_names(c: ast.ClassDef) -> List[str]:
+        out = []
+        for b in c.bases:
+            while isinstance(b, ast.Subscript):
+                b = b.value
+            if isinstance(b, ast.Name):
+                out.append(b.id)
+        return out
+
+    sites: List[str] = []
+    for base in list(classes.values()):
+        hook = next((m for m in base.body if isinstance(m, ast.FunctionDef) and m.name == "__init_subclass__"), None)
+        if hook is None or f"{base.name}.__init_subclass__" in known or hook.args.vararg or hook.args.posonlyargs or len(hook.args.args) < 1:
+            continue
+        if [ast.unparse(d) for d in hook.decorator_list] not in ([], ["classmethod"]):
+            continue
+        clsname = hook.args.args[0].arg
+        params = [a.arg for a in hook.args.args[1:]] + [a.arg for a in hook.args.kwonlyargs]
+        defaults: Dict[str, ast.expr] = {}
+        pos = hook.args.args[1:]
+        for a, d in zip(pos[len(pos) - len(hook.args.defaults):], hook.args.defaults):
+            defaults[a.arg] = d
+        for a, d in zip(hook.args.kwonlyargs, hook.args.kw_defaults):
+            if d is not None:
+                defaults[a.arg] = d
+
+        def descends(c: ast.ClassDef, seen=()) -> bool:
+            for b in base_names(c):
+                if b == base.name:
+                    return True
+                if b in classes and b not in seen and descends(classes[b], seen + (c.name,)):
+                    return True
+            return False
+
+        subs = [c for c in classes.values() if c is not base and descends(c)]
+        # an intermediate class with its own hook would change what runs: leave alone
+        if any(isinstance(m, ast.FunctionDef) and m.name == "__init_subclass__" for c in subs for m in c.body):
+            continue
+
+        def run(stmts, env, stores) -> bool:
+            """True when a `return` was executed."""
+            for st in stmts:
+                if isinstance(st, ast.Expr) and isinstance(st.value, ast.Constant):
+                    continue
+                if isinstance(st, ast.Expr) and isinstance(st.value, ast.Call) and isinstance(st.value.func, ast.Attribute) and st.value.func.attr == "__init_subclass__" \
+                        and isinstance(st.value.func.value, ast.Call) and isinstance(st.value.func.value.func, ast.Name) and st.value.func.value.func.id == "super":
+                    continue
+                if isinstance(st, ast.Pass):
+                    continue
+                if isinstance(st, ast.Return):
+                    if st.value is not None and not (isinstance(st.value, ast.Constant) and st.value.value is None):
+                        raise _NoConst
+                    return True
+                if isinstance(st, ast.If):
+                    if run(st.body if _const_eval(st.test, env) else st.orelse, env, stores):
+                        return True
+                    continue
+                if isinstance(st, (ast.Assign, ast.AnnAssign)):
+                    tg = st.targets if isinstance(st, ast.Assign) else [st.target]
+                    if st.value is None or len(tg) != 1:
+                        raise _NoConst
+                    v = _const_eval(st.value, env)
+                    t = tg[0]
+                    if isinstance(t, ast.Name) and t.id != clsname:
+                        env[t.id] = v
+                    elif isinstance(t, ast.Attribute) and isinstance(t.value, ast.Name) and t.value.id == clsname:
+                        stores[t.attr] = v
+                    else:
+                        raise _NoConst
+                    continue
+                raise _NoConst
+            return False
+
+        plans = []
+        try:
+            for c in subs:
+                env: Dict[str, object] = {}
+                for p_ in params:
+                    if p_ in defaults:
+                        env[p_] = _const_eval(defaults[p_], {})
+                given = {k.arg: k.value for k in c.keywords if k.arg and k.arg != "metaclass"}
+                if any(k.arg is None for k in c.keywords) or set(given) - set(params):
+                    raise _NoConst
+                for k, v in given.items():
+                    env[k] = _const_eval(v, {})
+                if set(params) - set(env):
+                    raise _NoConst
+                stores: Dict[str, object] = {}
+                run(hook.body, env, stores)
+                plans.append((c, stores, set(given)))
+        except _NoConst:
+            continue
+        if not any(st for _, st, _ in plans):
+            continue
+        for c, stores, given in plans:
+            c.keywords = [k for k in c.keywords if k.arg not in given]
+            own = {t.id for m in c.body if isinstance(m, ast.Assign) for t in m.targets if isinstance(t, ast.Name)} | \
+                  {m.target.id for m in c.body if isinstance(m, ast.AnnAssign) and isinstance(m.target, ast.Name)}
+            # the hook runs after the class body: its stores override attributes the body defines
+            c.body = [m for m in c.body if not ((isinstance(m, ast.Assign) and len(m.targets) == 1 and isinstance(m.targets[0], ast.Name) and m.targets[0].id in stores)
+                                                or (isinstance(m, ast.AnnAssign) and isinstance(m.target, ast.Name) and m.target.id in stores and m.value is not None))] or [ast.Pass()]
+            at = 1 if c.body and isinstance(c.body[0], ast.Expr) and isinstance(c.body[0].value, ast.Constant) and isinstance(c.body[0].value.value, str) else 0
+            new = [ast.copy_location(ast.Assign(targets=[ast.Name(id=a, ctx=ast.Store())], value=_const_node(v)), c) for a, v in stores.items()]
+            c.body[at:at] = new
+            for b in new:
+                ast.fix_missing_locations(b)
+        base.body = [m for m in base.body if m is not hook] or [ast.Pass()]
+        sites.append(f"{base.name}.__init_subclass__ run on the class keywords of {len([1 for _, st, _ in plans if st])} subclass(es); stores written as class attributes")
+    return sites
 
 
 def canonical_spellings(tree: ast.Module, modname: str) -> List[str]:
@@ -2098,21 +2308,126 @@ def expand_new_properties(trees: Dict[str, ast.Module]) -> List[str]:
     for k, v in props.items():
         if len({ast.unparse(e) for _, e in v}) == 1 and all_attr_names.get(k, 0) == len(v):
             usable[k] = v[0]
-    if not usable:
+    # a property name that other classes use too (`version`: header field and new MDF property) is resolved through the
+    # receiver's declared type: a parameter annotated with classes that all inherit the same new property
+    by_class: Dict[str, Dict[str, tuple]] = {}
+    bases: Dict[str, List[str]] = {}
+    for mod, t in trees.items():
+        known = kf.get(mod, set())
+        for cls in [c for c in ast.walk(t) if isinstance(c, ast.ClassDef)]:
+            bases.setdefault(cls.name, []).extend(b.id for b in cls.bases if isinstance(b, ast.Name))
+            for m in cls.body:
+                if isinstance(m, ast.FunctionDef) and m.name in props and f"{cls.name}.{m.name}" not in known and [ast.unparse(d) for d in m.decorator_list] == ["property"]:
+                    body = [b for b in m.body if not (isinstance(b, ast.Expr) and isinstance(b.value, ast.Constant) and isinstance(b.value.value, str))]
+                    if len(body) == 1 and isinstance(body[0], ast.Return) and len(m.args.args) == 1:
+                        by_class.setdefault(cls.name, {})[m.name] = (m.args.args[0].arg, body[0].value)
+                elif isinstance(m, (ast.FunctionDef, ast.Assign, ast.AnnAssign)):
+                    # a class that defines the name itself (method, field) shadows an inherited property
+                    nm = m.name if isinstance(m, ast.FunctionDef) else (m.target.id if isinstance(m, ast.AnnAssign) and isinstance(m.target, ast.Name) else None)
+                    if nm in props:
+                        by_class.setdefault(cls.name, {})[nm] = None
+
+    def class_prop(cname: str, prop: str, seen=()):
+        if cname in seen:
+            return None
+        own = by_class.get(cname, {})
+        if prop in own:
+            return own[prop]
+        for b in bases.get(cname, []):
+            r = class_prop(b, prop, seen + (cname,))
+            if r is not None:
+                return r
+        return None
+
+    def ann_classes(a) -> List[str]:
+        if a is None:
+            return []
+        if isinstance(a, ast.Constant) and isinstance(a.value, str):
+            try:
+                a = ast.parse(a.value, mode="eval").body
+            except SyntaxError:
+                return []
+        if isinstance(a, ast.Name):
+            return [a.id]
+        if isinstance(a, ast.Subscript) and isinstance(a.value, ast.Name) and a.value.id == "Union":
+            el = a.slice.elts if isinstance(a.slice, ast.Tuple) else [a.slice]
+            out_ = []
+            for e in el:
+                r = ann_classes(e)
+                if not r:
+                    return []
+                out_ += r
+            return out_
+        if isinstance(a, ast.BinOp) and isinstance(a.op, ast.BitOr):
+            l, r = ann_classes(a.left), ann_classes(a.right)
+            return l + r if l and r else []
+        return []
+
+    typed = {k for k in props if k not in usable}
+    if not usable and not by_class:
         return []
     done = []
 
     class P(ast.NodeTransformer):
+        def __init__(self):
+            self.params: List[Dict[str, List[str]]] = []
+
+        def visit_FunctionDef(self, f):
+            env = {a.arg: ann_classes(a.annotation) for a in f.args.posonlyargs + f.args.args + f.args.kwonlyargs}
+            stored = {x.id for x in ast.walk(f) if isinstance(x, ast.Name) and isinstance(x.ctx, (ast.Store, ast.Del))}
+            self.params.append({k: v for k, v in env.items() if v and k not in stored})
+            self.generic_visit(f)
+            self.params.pop()
+            return f
+
         def visit_Attribute(self, n):
             self.generic_visit(n)
             if isinstance(n.ctx, ast.Load) and n.attr in usable and _simple(n.value):
                 selfname, expr = usable[n.attr]
                 done.append(n.attr)
-                return ast.copy_location(_Rename({}, {selfname: n.value}).visit(copy.deepcopy(expr)), n)
+                return self.visit(ast.copy_location(_Rename({}, {selfname: n.value}).visit(copy.deepcopy(expr)), n))
+            if isinstance(n.ctx, ast.Load) and n.attr in typed and isinstance(n.value, ast.Name) and self.params and n.value.id in self.params[-1]:
+                found = [class_prop(c, n.attr) for c in self.params[-1][n.value.id]]
+                if found and all(f is not None for f in found) and len({ast.unparse(f[1]) for f in found}) == 1:
+                    selfname, expr = found[0]
+                    done.append(n.attr)
+                    return self.visit(ast.copy_location(_Rename({}, {selfname: n.value}).visit(copy.deepcopy(expr)), n))
             return n
 
     for t in trees.values():
         P().visit(t)
+        ast.fix_missing_locations(t)
+    return sorted(set(done))
+
+
+def hex_digest_spellings(trees: Dict[str, ast.Module]) -> List[str]:
+    """After a new property was written out: f"{int(<x>.hash[:N], 16):0NX}" is read as f"{<x>.hash[:N].upper()}" (and `:0Nx`
+    as `.lower()`).  Exact for a string of N hex digits, which `.hash` - a sha256 hexdigest, rule C13-H - is; any other
+    operand is left as written."""
+    done: List[str] = []
+
+    class H(ast.NodeTransformer):
+        def visit_FormattedValue(self, n):
+            self.generic_visit(n)
+            v = n.value
+            if not (isinstance(v, ast.Call) and isinstance(v.func, ast.Name) and v.func.id == "int" and len(v.args) == 2 and not v.keywords
+                    and isinstance(v.args[1], ast.Constant) and v.args[1].value == 16 and n.conversion == -1 and isinstance(n.format_spec, ast.JoinedStr)
+                    and len(n.format_spec.values) == 1 and isinstance(n.format_spec.values[0], ast.Constant)):
+                return n
+            op = v.args[0]
+            if not (isinstance(op, ast.Subscript) and isinstance(op.slice, ast.Slice) and op.slice.lower is None and op.slice.step is None
+                    and isinstance(op.slice.upper, ast.Constant) and isinstance(op.slice.upper.value, int) and isinstance(op.value, ast.Attribute) and op.value.attr == "hash"):
+                return n
+            spec = n.format_spec.values[0].value
+            k = op.slice.upper.value
+            if spec not in (f"0{k}X", f"0{k}x"):
+                return n
+            done.append(f"int(<hash>[:{k}], 16) formatted as {spec} read as .{'upper' if spec[-1] == 'X' else 'lower'}()")
+            call = ast.Call(func=ast.Attribute(value=op, attr="upper" if spec[-1] == "X" else "lower", ctx=ast.Load()), args=[], keywords=[])
+            return ast.copy_location(ast.FormattedValue(value=call, conversion=-1, format_spec=None), n)
+
+    for t in trees.values():
+        H().visit(t)
         ast.fix_missing_locations(t)
     return sorted(set(done))
 
